@@ -210,14 +210,15 @@ func (p *periodicSink) Write(b []byte) (int, error) {
 	return len(b), nil
 }
 
-// TestC16Huge (thorough only): a dependent-block frame of more than 4 GiB (1024 full 4 MiB blocks and a short one), every
+// TestC16Huge (quick: without content checksum, one reader): a dependent-block frame of more than 4 GiB (1024 full 4 MiB blocks and a short one), every
 // block a single match at offset 65535 into the previous block: whatever the Reader counts in 32 bits wraps on a block boundary.
 func TestC16Huge(t *testing.T) {
 	rec := stat.For("C16")
 	rec.SetRule(c16Rule)
-	if !thorough() || shard != 0 {
+	if shard != 0 {
 		return
 	}
+	full := thorough() // quick: no content checksum (hashing 4 GiB with the reference takes longer than decoding it), one reader
 	const bs = 4 << 20
 	pattern := make([]byte, 65535)
 	gen.Fill(pattern, 99)
@@ -257,6 +258,9 @@ func TestC16Huge(t *testing.T) {
 	var z []byte
 	z = append(z, 0x04, 0x22, 0x4D, 0x18)
 	desc := []byte{0x40 | 0x04, 0x70} // version 01, dependent blocks, content checksum; 4 MiB
+	if !full {
+		desc[0] = 0x40
+	}
 	z = append(z, desc...)
 	z = append(z, byte(ref.XXH32(desc, 0)>>8))
 	var hash ref.XXH32Stream
@@ -264,7 +268,7 @@ func TestC16Huge(t *testing.T) {
 	add := func(blk []byte, size int) {
 		z = append(z, byte(len(blk)), byte(len(blk)>>8), byte(len(blk)>>16), byte(len(blk)>>24))
 		z = append(z, blk...)
-		for left := size; left > 0; {
+		for left := size; left > 0 && full; {
 			n := 1 << 20
 			if n > left {
 				n = left
@@ -280,9 +284,13 @@ func TestC16Huge(t *testing.T) {
 	}
 	add(block(pos, 105, nil), 105)
 	z = append(z, 0, 0, 0, 0)
-	sum := hash.Sum32()
-	z = append(z, byte(sum), byte(sum>>8), byte(sum>>16), byte(sum>>24))
-	for _, rc := range []rcfg{{Conc: 1, WriteTo: true}, {Conc: 4, Sizes: []int{1 << 20}}} {
+	readers := []rcfg{{Conc: 1, WriteTo: true}}
+	if full {
+		sum := hash.Sum32()
+		z = append(z, byte(sum), byte(sum>>8), byte(sum>>16), byte(sum>>24))
+		readers = append(readers, rcfg{Conc: 4, Sizes: []int{1 << 20}})
+	}
+	for _, rc := range readers {
 		rec.Eval()
 		sink := &periodicSink{pattern: pattern, bad: -1}
 		r := lz4.NewReader(bytes.NewReader(z))
